@@ -1904,7 +1904,7 @@ class Store:
                         for child, child_node in node.inner.items():
                             state[child] = child_node.schema_topology(
                                 subschema, {})
-                elif key == '_divider':
+                elif key in ('_divider', '_emit'):
                     pass
                 elif isinstance(path, dict):
                     node, path = self.outer_path(path)
